@@ -177,14 +177,20 @@ type Style struct {
 	InList   bool // IN (...) instead of OR-ed equalities for several keys
 	Explicit bool // run the branch in an explicit transaction (BeginTx/Commit) even for one statement
 	Upper    bool // upper-case table name
+	Multi    bool // UPDATE / DELETE of several rows as one multi-statement string ("UPDATE ..; UPDATE ..")
 	// switches that steer around statement forms with known phase-one defects (reported under C16/C18),
 	// so that they do not mask everything downstream of phase one
 	Parens     bool // parenthesised key conditions (WHERE (a = ? AND b = ?)): image query loses its arguments
 	LitStrKeys bool // string literals in WHERE: the image query is rebuilt without the quotes
 }
 
+// IsMulti: the statement is rendered as a multi-statement string under this style
+func (st Style) IsMulti(s Stmt) bool {
+	return st.Multi && (s.Kind == "upd" || s.Kind == "del") && len(s.Keys) >= 2
+}
+
 func RandStyle(r *rand.Rand) Style {
-	return Style{Literal: r.Intn(3) == 0, InList: r.Intn(2) == 0, Explicit: r.Intn(3) == 0, Upper: false}
+	return Style{Literal: r.Intn(3) == 0, InList: r.Intn(2) == 0, Explicit: r.Intn(3) == 0, Upper: false, Multi: r.Intn(4) == 0}
 }
 
 func lit(v interface{}) string {
@@ -268,6 +274,19 @@ func (s *Schema) keyCond(b *sqlb, keys []int, st Style) {
 
 // SQL renders an abstract statement.
 func (s *Schema) SQL(st Stmt, style Style) (string, []interface{}) {
+	if style.IsMulti(st) {
+		// one single-row statement per key, joined into one string
+		one := style
+		one.Multi = false
+		var qs []string
+		var args []interface{}
+		for _, k := range st.Keys {
+			q, a := s.SQL(Stmt{Kind: st.Kind, Keys: []int{k}, W: st.W, U: st.U}, one)
+			qs = append(qs, q)
+			args = append(args, a...)
+		}
+		return strings.Join(qs, "; "), args
+	}
 	b := &sqlb{lit: style.Literal}
 	tbl := s.Name
 	if style.Upper {
